@@ -280,20 +280,25 @@ theorem c02_node_walk_weak (cfg : Cfg K V) (hc : WeakCmp cfg.cmp) (hf : cfg.fixe
     fun _ _ op _ _ _ hs hn => walkNodes_after_step_weak cfg hc hf hg op hs hn⟩
 
 /-- The comparators the harness instantiates the theorems with (built-in order on int and on
-strings = bytewise lexicographic, modular-then-value, length-then-bytes, and the reverse of any
-total order) satisfy the total-order laws, so the theorems above apply to every driven list. -/
+strings = bytewise lexicographic, modular-then-value, length-then-bytes, the comparators that
+answer with arbitrary magnitudes — `a-b`, `7(a-b)`, `sign·(1+hash)`, byte/length difference —, the
+reverse of any total order, and any comparator agreeing in sign with a total order) satisfy the total-order laws, so the theorems above apply to every driven list. -/
 theorem c02_harness_comparators_total :
     TotalCmp cmpInt ∧ TotalCmp cmpBytes ∧ TotalCmp cmpMod3 ∧ TotalCmp cmpLen ∧
-    (∀ {K : Type} {cmp : K → K → Int}, TotalCmp cmp → TotalCmp (fun a b => cmp b a)) :=
-  ⟨cmpInt_total, cmpBytes_total, cmpMod3_total, cmpLen_total, fun h => h.reverse⟩
+    TotalCmp cmpDiff ∧ TotalCmp cmpScaled ∧ TotalCmp cmpSgnHash ∧ TotalCmp cmpBytesDiff ∧
+    (∀ {K : Type} {cmp : K → K → Int}, TotalCmp cmp → TotalCmp (fun a b => cmp b a)) ∧
+    (∀ {K : Type} {cmp cmp' : K → K → Int}, TotalCmp cmp → (∀ a b, cmp' a b < 0 ↔ cmp a b < 0) →
+      (∀ a b, 0 < cmp' a b ↔ 0 < cmp a b) → TotalCmp cmp') :=
+  ⟨cmpInt_total, cmpBytes_total, cmpMod3_total, cmpLen_total, cmpDiff_total, cmpScaled_total,
+    cmpSgnHash_total, cmpBytesDiff_total, fun h => h.reverse, fun h h1 h2 => h.of_sign h1 h2⟩
 
 /-- The key-identifying comparators the harness drives `SkipListWithCmp` with (ints compared by
 `k >> 1`, strings by length only, and the reverse of any weak order) satisfy the weak-order laws
 — and `cmpHalf` is not a total-order comparator, so the `…_weak` theorems are what covers it. -/
 theorem c02_harness_comparators_weak :
-    WeakCmp cmpHalf ∧ WeakCmp cmpLenOnly ∧ ¬ TotalCmp cmpHalf ∧
+    WeakCmp cmpHalf ∧ WeakCmp cmpLenOnly ∧ WeakCmp cmpHalfDiff ∧ ¬ TotalCmp cmpHalf ∧
     (∀ {K : Type} {cmp : K → K → Int}, WeakCmp cmp → WeakCmp (fun a b => cmp b a)) :=
-  ⟨cmpHalf_weak, cmpLenOnly_weak, cmpHalf_not_total, fun h => h.reverse⟩
+  ⟨cmpHalf_weak, cmpLenOnly_weak, cmpHalfDiff_weak, cmpHalf_not_total, fun h => h.reverse⟩
 
 /-- What the hand-written model takes from the source text, re-extracted from /repo by go/ast
 on every run (`Golib/Gen/FactsC02.lean`): the level constant and the two masks, the body of
